@@ -149,8 +149,8 @@ def history(ctx, data, sc, nops):
     for k_ in keys:
         if k_ not in initial:
             inp = input_object(year, k_)
-            if inp is not None and catalog.input_kind(inp) == 'str' and data.draw(st.integers(0, 5)) == 0:
-                answers[k_] = data.draw(st.sampled_from(['100% sure', '50%', '%(x)s', 'a%%b', 'rate: 5 %', '12 Elm St #4', '#4', 'a ; b', ';x', 'k = v', '[sec]', "O'Neil"]))
+            if inp is not None and catalog.input_kind(inp) == 'str' and data.draw(st.integers(0, 2)) == 0:
+                answers[k_] = data.draw(st.sampled_from(['100% sure', '50%', '%(x)s', 'a%%b', 'rate: 5 %', '401k match 50% of pay', '12 Elm St #4', '#4', 'a ; b', ';x', 'k = v', '[sec]', "O'Neil"]))
                 flags.add('percent_answer')
     last_complete_solution = [None]
     with cli.scratch() as d:
@@ -238,7 +238,9 @@ def history(ctx, data, sc, nops):
                     if name in known:
                         ctx.violation('hist:resolve-asks-known', f're-solve prompted for {name}, which the file is known to hold', case)
                 if last_complete_solution[0] is not None:
-                    if asked:
+                    if o.exc is not None:
+                        ctx.violation('hist:resolve-raises', f'after a complete answered run the re-solve on the written-back file raised {o.exc!r}', case)
+                    elif asked:
                         ctx.violation('hist:resolve-asks-after-complete', f'after a complete answered run the re-solve still prompted for {[a[0] for a in asked][:3]}', case)
                     elif o.exc is None and sol_dict(o.solution_text) != sol_dict(last_complete_solution[0]):
                         ctx.violation('hist:resolve-solution-differs', 're-solve on the written-back file produced a different solution', case)
